@@ -838,11 +838,12 @@ func Roots(v ssa.Value, deep bool) []ssa.Value {
 		case *ssa.Parameter:
 			// one interprocedural level up: the argument at the only call site
 			if site := SoleCallSite(x.Parent()); site != nil {
-				cc := CC(site)
 				for i, p := range x.Parent().Params {
-					if p == x && i < len(cc.Args) {
-						walk(cc.Args[i])
-						return
+					if p == x {
+						if a := ArgOfParam(site, x.Parent(), i); a != nil {
+							walk(a)
+							return
+						}
 					}
 				}
 			}
@@ -1392,4 +1393,21 @@ func SliceAny(v ssa.Value, pred func(ssa.Value) bool) bool {
 		return false
 	}
 	return walk(v)
+}
+
+// BoundTarget: for the synthetic wrapper of a method value (x.M used as a func), the method M it calls; fn otherwise.
+func BoundTarget(fn *ssa.Function) *ssa.Function {
+	if fn == nil || fn.Synthetic == "" || !strings.Contains(fn.Synthetic, "bound method wrapper") {
+		return fn
+	}
+	var target *ssa.Function
+	EachInstr(fn, func(in ssa.Instruction) {
+		if cc := CC(in); cc != nil && cc.StaticCallee() != nil {
+			target = cc.StaticCallee()
+		}
+	})
+	if target == nil || len(target.Blocks) == 0 {
+		return fn
+	}
+	return target
 }
